@@ -639,6 +639,13 @@ def plan_C01(ctx):
             cs = ctx.mc(mod, env=env)
             ctx.replay(cs, profiles=("relchk",))
     ctx.records("mix", n=(60000 if ctx.deep else 6000))
+    if ctx.deep:
+        # non-vacuity and binding of the machinery itself: spec mutants must be killed, corrupted traces rejected
+        rc, out = vcheck.run([os.path.join(vcheck.VERIF, "bin", "selftest")], timeout=3600)
+        log("  selftest: " + (out.strip().splitlines()[-1] if out.strip() else "no output"))
+        if rc != 0:
+            raise ToolError("bin/selftest failed:\n" + out[-3000:])
+        ctx.notes["selftest"] = json.load(open(os.path.join(vcheck.VERIF, "selftest-results.json")))
     ctx.assumptions.append("hangs are detected by a watchdog on the code (20 s) and proved absent only for the specification (machine termination under weak fairness)")
     ctx.assumptions.append("not every 64-bit integer / double: boundary classes of each abs, try_into, checked_*, cast and comparison in the code, plus the families of the other properties")
 
